@@ -151,11 +151,12 @@ def gen_config(rng, case, allow_irresolute=True):
     if allow_irresolute and m <= 5 and rng.random() < 0.25:
         case["resolute"] = False
     case["inc"] = None
-    if rng.random() < 0.3 and (case["resolute"] or m <= 4):
+    if rng.random() < 0.4 and (case["resolute"] or m <= 4):
         costs = [pb.F(c) for c in case["costs"]]
         nv = len(case["ballots"])
         share = pb.F(case["budget"]) / nv
-        inc = rng.choice([share, share / 2, share / 3, share / 4, Fraction(1), Fraction(1, 2), share * Fraction(2, 7)])
+        inc = rng.choice([share, share / 2, share / 3, share / 4, Fraction(1), Fraction(1, 2), share * Fraction(2, 7),
+                          share / 5, share / 6, share / 8, Fraction(1, 3)])
         lo = max(costs + [pb.F(case["budget"])]) / 40
         if inc < lo:
             inc = lo
@@ -174,6 +175,54 @@ def gen_config(rng, case, allow_irresolute=True):
     case["init"] = init
     case["sat_mode"] = rng.choice(["class", "profile"])
     return case
+
+
+def gen_stale(rng):
+    """Targeted stream for state that survives from one run of the iterated variant into the next
+    (per-voter budget/satisfaction ratio cache, cached affordabilities, supporter order): a chain
+    v1{q:high} v2{q:low, r:high} v3{r:low} of cardinal ballots with spread-out scores plus 1-3 voters
+    with empty ballots, budget around the cost of the supported projects, small increments => several
+    runs; in run k+1 some supporters of q have already paid for r while others have not, and the true
+    order of q's supporters by budget/utility differs from the order of the previous run."""
+    from fractions import Fraction as Fr
+    costs = [Fr(rng.choice([5, 6, 7, 8, 9, 10])) for _ in range(2)]
+    ballots = [{"0": rng.choice([3, 4, 5, 6])},
+               {"0": rng.choice([1, 1, 2]), "1": rng.choice([3, 4, 5, 6])},
+               {"1": rng.choice([1, 1, 2])}]
+    if rng.random() < 0.25:
+        costs.append(Fr(rng.choice([4, 6, 8, 12])))
+        ballots[rng.randrange(3)]["2"] = rng.choice([1, 2, 3])
+        if rng.random() < 0.5:
+            ballots.append({"2": rng.choice([1, 2, 4])})
+    for _ in range(rng.choice([1, 1, 2, 2, 3])):
+        ballots.append({})
+    rng.shuffle(ballots)
+    m = len(costs)
+    perm = list(range(m))
+    rng.shuffle(perm)
+    costs2 = [None] * m
+    for j in range(m):
+        costs2[perm[j]] = costs[j]
+    ballots = [{str(perm[int(k)]): pb.qs(v) for k, v in b.items()} for b in ballots]
+    sup = {int(k) for b in ballots for k in b}
+    tot = sum((costs2[j] for j in sup), Fr(0))
+    if rng.random() < 0.3:           # an unsupported project inflates the budget limit
+        costs2.append(Fr(rng.choice([4, 6])))
+    B = tot * rng.choice([Fr(1), Fr(11, 10), Fr(5, 4), Fr(3, 2)])
+    inc = rng.choice([Fr(1, 3), Fr(1, 4), Fr(1, 5), Fr(1, 2), Fr(2, 3)])
+    m = len(costs2)
+    tb = rng.choice(["lexico", "min_cost", "max_cost", "perm"])
+    if tb == "perm":
+        pm = list(range(m))
+        rng.shuffle(pm)
+        tb = ["perm", pm]
+    enum = list(range(m))
+    rng.shuffle(enum)
+    return {"costs": [pb.qs(c) for c in costs2], "budget": pb.qs(B),
+            "ballot": rng.choice(["cardinal", "cardinal", "cumulative"]), "ballots": ballots,
+            "sat": "Additive_Cardinal_Sat", "solver": False, "multi": rng.random() < 0.4, "tb": tb,
+            "binary": rng.choice([None, True, False]), "resolute": True, "inc": pb.qs(inc), "enum": enum,
+            "sat_mode": rng.choice(["class", "profile"]), "init": [], "stream": "stale"}
 
 
 # ----------------------------------------------------------------------------------------------
